@@ -36,13 +36,16 @@ Proof. cbn [repeat]. rewrite repeat_cons, <- app_assoc. reflexivity. Qed.
 Section Proofs.
 Variable fresh_ent : gmap positive dent -> positive.
 Variable fresh_ino : gmap positive file -> positive.
+Variable umask : N.
 Hypothesis Hfe : forall d, d !! fresh_ent d = None.
 Hypothesis Hfi : forall m, m !! fresh_ino m = None.
 
-Notation open_tmp := (open_tmp fresh_ent fresh_ino).
-Notation open_staged := (open_staged fresh_ent fresh_ino).
-Notation api_i := (api_i fresh_ent fresh_ino).
-Notation copy_file_i := (copy_file_i fresh_ent fresh_ino).
+Notation open_tmp := (open_tmp fresh_ent fresh_ino umask).
+Notation open_staged := (open_staged fresh_ent fresh_ino umask).
+Notation api_i := (api_i fresh_ent fresh_ino umask).
+Notation copy_file_i := (copy_file_i fresh_ent fresh_ino umask).
+Notation write_reader_i := (write_reader_i fresh_ent fresh_ino umask).
+Notation perm_new := (perm_new umask).
 
 (* ---------- the body ---------- *)
 Lemma run_body_spec fd ofd b : forall s f,
@@ -96,7 +99,7 @@ Qed.
 (* the two ways openStagedOutput succeeds *)
 Definition opened_new (o : sp) (s s1 : ist) (ofd t : positive) (dest : option positive) : Prop :=
   idir s !! sp_ent o = None /\ dest = None /\ t = sp_ent o /\ ofd = fresh_ino (inos s) /\
-  idir s1 = <[sp_ent o := DFile ofd]> (idir s) /\ inos s1 = <[ofd := File [] mode_new]> (inos s) /\
+  idir s1 = <[sp_ent o := DFile ofd]> (idir s) /\ inos s1 = <[ofd := File [] perm_new]> (inos s) /\
   wlog s1 = wlog s /\ reads s1 = reads s.
 Definition opened_replace (tg : sp) (s s1 : ist) (ofd t : positive) (dest : option positive) : Prop :=
   exists i f, resolve (idir s) (sp_ent tg) = Some i /\ inos s !! i = Some f /\
@@ -129,7 +132,7 @@ Qed.
 Definition mode_rule (s0 : ist) (d : sp) (md : N) : Prop :=
   (is_Some (idir s0 !! sp_ent d) ->
      exists i f, resolve (idir s0) (sp_ent d) = Some i /\ inos s0 !! i = Some f /\ md = fmode f) /\
-  (idir s0 !! sp_ent d = None -> md = mode_new).
+  (idir s0 !! sp_ent d = None -> md = perm_new).
 
 Definition input_snap (s0 : ist) (rd : option sp) (snap : option bytes) : Prop :=
   forall x, rd = Some x ->
@@ -167,9 +170,9 @@ Proof.
     exists i, fin. split; [exact Hr|]. split; [exact Hi|]. rewrite Hi. reflexivity. }
   destruct Hop as [Hnew|Hrep].
   - destruct Hnew as (Hnone & -> & -> & Hofd & Hdir & Hino & Hwl & Hrds).
-    intros [= <-]. exists d, mode_new. split; [exact Hd|]. split.
+    intros [= <-]. exists d, perm_new. split; [exact Hd|]. split.
     { split; [intros [x Hx]; rewrite Hnone in Hx; discriminate|reflexivity]. }
-    assert (Hf2 : inos s2 !! ofd = Some (File [] mode_new)) by (rewrite Hino; apply lookup_insert).
+    assert (Hf2 : inos s2 !! ofd = Some (File [] perm_new)) by (rewrite Hino; apply lookup_insert).
     destruct (run_body_spec fd ofd b s2 _ Hf2 (Hne Hofd)) as (H1 & H2 & (n & H3) & (k & H4)).
     cbn [fdata fmode app] in H2. subst ofd.
     split; [rewrite H1; exact Hdir|]. split; [rewrite H2, Hino; apply insert_insert|].
@@ -303,5 +306,56 @@ Lemma copy_same_file_noop_proof src dst s i f :
   copy_file_i src dst s = ROk tt s.
 Proof.
   intros Hs Hd Hi. unfold copy_file_i, open_rd, stat. rewrite Hs, Hi, Hd, Hi, Pos.eqb_refl. reflexivity.
+Qed.
+
+(* pdfcpu.WriteReader / WriteContext's file path (createStagedFile + finishStagedFile): on Ok the name is
+   bound to a new inode with exactly the output; an existing regular destination keeps its mode whatever
+   the umask (explicit chmod after the create), a new one gets 0666 &^ umask *)
+Lemma write_reader_publishes_proof path b s0 s' :
+  sp_ent path <> fresh_ent (idir s0) ->
+  write_reader_i path b s0 = ROk tt s' ->
+  exists md, idir s' = <[sp_ent path := DFile (fresh_ino (inos s0))]> (idir s0) /\
+    inos s' = <[fresh_ino (inos s0) := File (output_of b) md]> (inos s0) /\
+    (forall i f, idir s0 !! sp_ent path = Some (DFile i) -> inos s0 !! i = Some f -> md = fmode f) /\
+    (idir s0 !! sp_ent path = None -> md = perm_new).
+Proof.
+  intros Hnt. unfold Model.write_reader_i, create_staged_file, create_temp.
+  set (t := fresh_ent (idir s0)). set (inew := fresh_ino (inos s0)).
+  set (s1 := IS (<[t := DFile inew]> (idir s0)) (<[inew := File [] perm_new]> (inos s0)) (wlog s0) (reads s0)).
+  assert (Hres_file : forall i f, idir s0 !! sp_ent path = Some (DFile i) -> inos s0 !! i = Some f ->
+            stat path s1 = ROk (i, f) s1).
+  { intros i f Hp Hi. unfold stat, resolve. cbn [follow]. unfold s1 at 1. cbn [idir].
+    rewrite lookup_insert_ne by (intros Heq; apply Hnt; symmetry; exact Heq). rewrite Hp.
+    unfold s1 at 1. cbn [inos]. rewrite lookup_insert_ne by (intros <-; unfold inew in Hi; rewrite Hfi in Hi; discriminate).
+    rewrite Hi. reflexivity. }
+  assert (Hres_none : idir s0 !! sp_ent path = None -> exists e, stat path s1 = RErr e s1).
+  { intros Hp. unfold stat, resolve. cbn [follow]. unfold s1 at 1. cbn [idir].
+    rewrite lookup_insert_ne by (intros Heq; apply Hnt; symmetry; exact Heq). rewrite Hp. eauto. }
+  assert (Hst : (exists j fi, stat path s1 = ROk (j, fi) s1) \/ (exists e, stat path s1 = RErr e s1)).
+  { unfold stat. destruct (resolve (idir s1) (sp_ent path)) as [j|]; [|right; eauto].
+    destruct (inos s1 !! j) as [fi|]; [left; eauto|right; eauto]. }
+  assert (Hfin : forall md s2, idir s2 = idir s1 -> inos s2 = <[inew := File [] md]> (inos s0) ->
+            rename t (sp_ent path) (run_body None inew b s2) = ROk tt s' ->
+            idir s' = <[sp_ent path := DFile inew]> (idir s0) /\ inos s' = <[inew := File (output_of b) md]> (inos s0)).
+  { intros md s2 Hd2 Hi2.
+    assert (Hf2 : inos s2 !! inew = Some (File [] md)) by (rewrite Hi2; apply lookup_insert).
+    destruct (run_body_spec None inew b s2 _ Hf2) as (H1 & H2 & _ & _); [discriminate|].
+    cbn [fdata fmode app] in H2. unfold rename. rewrite H1, Hd2. unfold s1. cbn [idir]. rewrite lookup_insert.
+    intros [= <-]. cbn [idir inos]. split.
+    - rewrite delete_insert; [reflexivity|apply Hfe].
+    - rewrite H2, Hi2. apply insert_insert. }
+  destruct Hst as [(j & fi & Est)|(e & Est)]; rewrite Est.
+  - unfold fchmod. unfold s1 at 1. cbn [inos]. rewrite lookup_insert. cbn [fdata].
+    intros Hrun. exists (fmode fi).
+    apply (Hfin (fmode fi)) in Hrun; [|reflexivity|cbn [inos]; unfold s1; cbn [inos]; apply insert_insert].
+    destruct Hrun as [Hd Hi].
+    split; [exact Hd|]. split; [exact Hi|]. split.
+    + intros i f Hp Hif. rewrite (Hres_file i f Hp Hif) in Est. injection Est as <- <-. reflexivity.
+    + intros Hp. destruct (Hres_none Hp) as [e Hs]. rewrite Hs in Est. discriminate.
+  - intros Hrun. exists perm_new.
+    destruct (Hfin perm_new s1 eq_refl eq_refl Hrun) as [Hd Hi].
+    split; [exact Hd|]. split; [exact Hi|]. split.
+    + intros i f Hp Hif. rewrite (Hres_file i f Hp Hif) in Est. discriminate.
+    + intros _. reflexivity.
 Qed.
 End Proofs.
